@@ -11,7 +11,19 @@
      vsort / vsortlcg     through __cstl_vector_sort
      vsortd               cstl_vector_sort (library swap: only comparisons logged)
      reverse / vreverse, search <key> / vsearch, find <key> / vfind
-   Output per operation: ok <ret> | key:tag ... | event log (or n= h= when long) *)
+     rawswap <sz> <i> <j> <b0> <b1> ...
+                          the byte-level cstl_swap (SwapModel.bytes_swap) on a memory of
+                          (n+1)*sz bytes given as decimal values: n elements + the scratch;
+                          swaps elements i and j.  Independent of the header.
+                          Output: ok 0 | array bytes | ~ scratch bytes
+   Output per operation: ok <ret> | key:tag ... | event log (or n= h= when long)
+
+   Byte level: for sort / reverse on arrays of at most byte_limit bytes the final elements
+   are NOT printed from the element-level result: the runner builds the driver's memory
+   image (put_elem below = put_elem of drv_sort.c), executes the swap events of the model's
+   log on it with SwapModel.replay (cstl_swap transcribed byte by byte) and decodes key:tag
+   from the resulting bytes like the driver's print_elem; BYTES-MISMATCH is printed if that
+   differs from the element-level result (theorem C11_replay_bytes says it cannot). *)
 open Util
 open SortModel
 
@@ -52,6 +64,61 @@ let fmt_log (l : ev list) : string =
 let fmt_arr (a : el list) : string =
   S.concat " " (L.map (fun (k, t) -> Printf.sprintf "%d:%d" k t) a)
 
+(* ---- the driver's element layout (drv_sort.c put_elem / print_elem) ---- *)
+let filler idx pos = (idx * 7 + pos * 13 + 1) land 255
+
+let put_elem (es : int) ((key, tag) : el) : int list =
+  L.init es (fun k ->
+    if k = 0 then key land 255
+    else if es >= 2 && k = es - 1 then tag land 255
+    else if es >= 3 && k = 1 then (tag lsr 8) land 255
+    else if es >= 4 && k = 2 then (tag lsr 16) land 255
+    else filler tag k)
+
+let decode_elem (es : int) (e : int array) : string =
+  let tag = ref 0 in
+  if es >= 2 then tag := !tag lor e.(es - 1);
+  if es >= 3 then tag := !tag lor (e.(1) lsl 8);
+  if es >= 4 then tag := !tag lor (e.(2) lsl 16);
+  let ok = ref true in
+  for k = 3 to es - 2 do if e.(k) <> filler !tag k then ok := false done;
+  if !ok then Printf.sprintf "%d:%d" e.(0) !tag else Printf.sprintf "%d:BAD" e.(0)
+
+let byte_limit = 512
+
+(* final elements as decoded from the bytes after replaying the swap events of [l] with the
+   byte-level cstl_swap; None when the array is too large for the byte-level run *)
+let bytes_after (es : int) (a : el list) (l : ev list) : string option =
+  let n = L.length a in
+  if es < 1 || (n + 1) * es > byte_limit then None else begin
+    let m0 = L.concat_map (put_elem es) a @ L.init es (fun _ -> 0xEE) in
+    match SwapModel.replay (nat_of_int es) (nat_of_int n) m0 l with
+    | Ok m ->
+      let arr = Array.of_list m in
+      Some (S.concat " " (L.init n (fun k -> decode_elem es (Array.sub arr (k * es) es))))
+    | _ -> Some "BYTES-UB"
+  end
+
+let fmt_arr_bytes (es : int) (a : el list) (a' : el list) (l : ev list) : string =
+  let elems = fmt_arr a' in
+  match bytes_after es a l with
+  | None -> elems
+  | Some b -> if b = elems then b else b ^ " BYTES-MISMATCH"
+
+let rawswap (ws : string list) : string =
+  match L.map int_of_string ws with
+  | sz :: i :: j :: bytes when sz >= 1 && L.length bytes mod sz = 0 && L.length bytes >= sz ->
+    let n = L.length bytes / sz - 1 in
+    (match SwapModel.bytes_swap bytes (SwapModel.at_off (nat_of_int sz) (nat_of_int i))
+             (SwapModel.at_off (nat_of_int sz) (nat_of_int j))
+             (SwapModel.at_off (nat_of_int sz) (nat_of_int n)) (nat_of_int sz) with
+     | Ok m ->
+       let f l = S.concat " " (L.map string_of_int l) in
+       Printf.sprintf "ok 0 | %s | ~ %s" (f (L.filteri (fun k _ -> k < n * sz) m))
+         (f (L.filteri (fun k _ -> k >= n * sz) m))
+     | _ -> "fault")
+  | _ -> "precond"
+
 let lcg_next x = (x * 1103515245 + 12345) land 0x7fffffff
 
 let rnd_of_draws (draws : int list) : Datatypes.nat -> BinNums.coq_N =
@@ -87,13 +154,16 @@ let run_case ~(v0 : bool) (c : case) =
     | "arr" :: ks -> keys := !keys @ L.map int_of_string ks
     | ["vcap"; _] -> ()
     | ["cmpmode"; _] -> ()   (* magnitude of the C callback's results: the model only sees signs *)
+    | "rawswap" :: ws ->
+      let r = rawswap ws in
+      print_endline r; if r = "fault" || r = "precond" then dead := true
     | _ ->
       let tm = tagmod !esize in
       let a : el list = L.mapi (fun i k -> (k, i mod tm)) !keys in
       let fin r f = fin_res dead r f in
       let do_sort ?(filter = fun l -> l) sel extra rnd =
         fin (sort cmp (z_of_string sel) (nat_of_int extra) rnd a)
-          (fun (a', l) -> Printf.printf "ok 0 | %s | %s\n" (fmt_arr a') (fmt_log (filter l))) in
+          (fun (a', l) -> Printf.printf "ok 0 | %s | %s\n" (fmt_arr_bytes !esize a a' l) (fmt_log (filter l))) in
       (match w with
        | ("sort" | "vsort") :: sel :: draws ->
          let d = L.map int_of_string draws in
@@ -103,7 +173,7 @@ let run_case ~(v0 : bool) (c : case) =
        | ["vsortd"] -> do_sort ~filter:only_cmps "2" 0 (rnd_of_draws [])
        | ["reverse"] | ["vreverse"] ->
          fin ((if v0 then reverse_v0 else reverse) a)
-           (fun (a', l) -> Printf.printf "ok 0 | %s | %s\n" (fmt_arr a') (fmt_log l))
+           (fun (a', l) -> Printf.printf "ok 0 | %s | %s\n" (fmt_arr_bytes !esize a a' l) (fmt_log l))
        | [("search" | "vsearch"); p] ->
          if not (sortedb cmp a) then begin print_endline "precond"; dead := true end else
          fin ((if v0 then search_v0 else search) cmp (int_of_string p, 0) a)
